@@ -3,7 +3,7 @@ from sa.core import rule, prop_info
 from sa.lib import *  # noqa: F401,F403
 from sa.lib import attr_stores, in_lock, local_assigns, origins, func_calls, handler_reraises, enclosing_tries
 from sa import roles
-from sa.model import names_in
+from sa.model import names_in, AnchorMissing
 
 prop_info(
     'C05',
@@ -57,6 +57,21 @@ def param_like(recv, funcnode, depth=3):
     return False
 
 
+def _part_of_allowed_writer(m, fi, allowed):
+    """fi is a private helper method that was expanded in place of its call in allowed writers only, and no other
+    reference to it is left anywhere (so its stores are judged as part of those writers)"""
+    callers = [q for q, hs in m.inlined.items() if fi.qualname in hs]
+    if not callers or not all(q in allowed for q in callers) or not fi.name.startswith('_'):
+        return False
+    for g in m.functions.values():
+        if g is fi:
+            continue
+        for n in ast.walk(g.node):
+            if isinstance(n, ast.Attribute) and n.attr == fi.name:
+                return False
+    return True
+
+
 @rule('C05.R1', min_instances=4)
 def single_funnel(ctx):
     """who-may-write: stores to .value/.readerror/.timestamp of a Parameter instance only in the funnel
@@ -85,6 +100,8 @@ def single_funnel(ctx):
             construct = f'{fi.qualname}:store {src(tgt)}'
             if fi.qualname in allowed:
                 ctx.ok(construct, tgt, f'allowed writer: {allowed[fi.qualname]}', fi)
+            elif _part_of_allowed_writer(m, fi, allowed):
+                ctx.ok(construct, tgt, 'private helper whose only call sites lie in an allowed writer (analysed there in place of the call)', fi)
             elif not fi.module.name.startswith('frappy.'):
                 ctx.info(construct, tgt, 'cache store in a driver package (un-triaged: reported as info only)', fi)
             else:
@@ -401,6 +418,15 @@ def listeners_are_a_private_copy(ctx):
     connections not yet served and their stream no longer reconstructs the cache)"""
     from sa.rules import c08
     c08.listener_sources(ctx)
+
+
+@rule('C05.R10', min_instances=3)
+def messages_arrive_whole(ctx):
+    """shared with C07.R4: updates are sent by the poll threads of several modules and by request threads to the same
+    connection; each encoded frame is handed to the socket inside the connection's send_lock, so that a message is never
+    cut in two by another one (a damaged line is not a message: the stream then no longer reconstructs the cache)"""
+    from sa.rules import c07
+    c07.line_atomicity(ctx)
 
 
 def _truth_polarity(test):
